@@ -7,7 +7,8 @@ BOUNDS = {
     "quick": "one operation (aspirate|dispense|transfer|distribute) from an arbitrary valid state, inspected on EVERY path including those "
              "ending in an exception at any sub-step (underflow at the k-th well, overflow at the destination after a successful aspirate, "
              "step > max_volume with auto_split off); both devices; plate 2x2 / trough 3x2; k<=2; <=3 split steps; auto_split on and off; "
-             "symbolic labware limits, worklist max_volume and volumes",
+             "symbolic labware limits, worklist max_volume and volumes; plus the EVO script commands evo_aspirate / evo_dispense with 1-2 tips (per-tip or "
+             "scalar symbolic volumes) on a plate 4x2 / trough 4x2, decoded with the independent EVO script oracle",
     "thorough": "as quick with 4 candidate wells per slot for k=2, <=4 split steps, geometries plate 3x2/8x2 and trough 8x1, all partition modes",
 }
 OUTSIDE = "k>2, more split steps, other geometries; the file written by __exit__ is the record list (C17 decides the writer)"
@@ -39,6 +40,10 @@ def shards(tier):
         out.append(dict(dev=dev, op="transfer", sgeo="p2x2", dgeo="p2x2", same=True, k=2, steps=2, partition_by="auto", washes=[1], ncand=2))
         # both plates constructed (public constructor) from one caller-owned float array: their states must stay independent
         out.append(dict(dev=dev, op="transfer", sgeo="p2x2", dgeo="p2x2", shared_init=True, k=1, steps=2, partition_by="auto", auto_split=True, washes=[1]))
+    # EVO script commands (multi-tip aspirate / dispense) are pipetting steps of the worklist too
+    for cmd in ("evo_aspirate", "evo_dispense"):
+        for kind in ("plate", "trough"):
+            out.append(dict(part="evo", cmd=cmd, kind=kind, k=2, steps=1, op=cmd, dev="evo"))
     return out
 
 
@@ -54,7 +59,74 @@ def witnesses(tier):
     return {"exc:VolumeUnderflowError", "exc:VolumeOverflowError", "exc:InvalidOperationError", "ok", "exc-after-records"}
 
 
+def scenario_evo(ctx, p):
+    ns = common.rt()
+    c = ctx.ctx
+    m = ctx.real("wl_max", None, common.BIG)
+    ctx.assume(m > 0)
+    wl = ns.EvoWorklist(max_volume=m, auto_split=ctx.choose("auto_split", [True, False]))
+    lab, g, pre = common.make_labware(ctx, "P", ("plate", 4, 2) if p["kind"] == "plate" else ("trough", 4, 2), filled=False)
+    wells = ctx.choose("wells", [["A01", "B01"], ["B01", "D01"], ["A02"]])
+    tips = [1, 2][: len(wells)] if ctx.choose("tips", ["1,2", "3,7"]) == "1,2" else [3, 7][: len(wells)]
+    per = [ctx.real(f"x{i}", 0, common.BIG) for i in range(len(wells))]
+    vols = per if ctx.choose("volshape", ["list", "scalar"]) == "list" else per[0]
+    if not isinstance(vols, list):
+        per = [per[0]] * len(wells)
+    c.update(wl=wl, lab=lab, pre={k[1]: v for k, v in pre.items()}, m=m, wells=wells, tips=tips, per=per, kind=p["kind"])
+    getattr(wl, p["cmd"])(lab, wells, (30, 2), tips, vols, "LC")
+    return wl
+
+
+def judge_evo(ctx, p, outcome):
+    from oracles import evoscript
+    kind, val = outcome
+    c = ctx.ctx
+    ns = common.rt()
+    wl, lab, m = c["wl"], c["lab"], c["m"]
+    if kind == "exc":
+        if not isinstance(val, (ns.VolumeViolationException, ns.InvalidOperationError, ValueError)):
+            ctx.violate(f"C03: unexpected exception type {type(val).__name__}: {val}")
+            return
+        ctx.reach(f"exc:{type(val).__name__}")
+    else:
+        ctx.reach("ok")
+    vol = dict(c["pre"])
+    for irec, rec in enumerate(wl):
+        if not rec.startswith(("B;Aspirate(", "B;Dispense(")):
+            continue
+        try:
+            name, args = evoscript.parse(rec)
+            R, C, selwells = evoscript.decode_selection(evoscript.unq(args[17]))
+        except evoscript.Reject as ex:
+            ctx.violate(f"C03: records present after the operation are not executable: {ex}")
+            return
+        mask = int(args[0])
+        slots = [evoscript.unq(a) for a in args[2:14]]
+        tips_sel = [i for i in range(8) if mask >> i & 1]
+        if len(tips_sel) != len(selwells):
+            ctx.violate("C03: EVO command selects different numbers of tips and wells")
+            return
+        for tip, (r, col) in zip(tips_sel, sorted(selwells, key=lambda w: (w[1], w[0]))):
+            v, _ = ctx.field(slots[tip])
+            ctx.prove(ctx.le(v, m + wlops.HALF_CENT), f"C03: a step of the {name} command exceeds the worklist max_volume")
+            real = (0, col) if c["kind"] == "trough" else (r, col)
+            if name == "Aspirate":
+                vol[real] = vol[real] - v
+                ctx.prove(ctx.le(lab.min_volume - wlops.HALF_CENT * 2, vol[real]), f"C03: replayed record {irec + 1} takes P{real} below min_volume")
+            else:
+                vol[real] = vol[real] + v
+                ctx.prove(ctx.le(vol[real], lab.max_volume + wlops.HALF_CENT * 2), f"C03: replayed record {irec + 1} takes P{real} above max_volume")
+
+
+def describe_evo(ctx, p, outcome):
+    c = ctx.ctx
+    return (f"  {p['cmd']} on {c.get('kind')} wells={c.get('wells')} tips={c.get('tips')} volumes={c.get('per')!r} worklist.max_volume={c.get('m')!r}\n"
+            f"  pre={c.get('pre')} min={getattr(c.get('lab'), 'min_volume', None)} max={getattr(c.get('lab'), 'max_volume', None)}\n  outcome={outcome[0]} {outcome[1] if outcome[0] == 'exc' else ''} records={list(c['wl']) if 'wl' in c else None}")
+
+
 def scenario(ctx, p):
+    if p.get("part") == "evo":
+        return scenario_evo(ctx, p)
     W = wlops.build(ctx, p)
     ctx.ctx["W"] = W
     wlops.run(ctx, W)
@@ -65,6 +137,8 @@ def judge(ctx, p, outcome):
     kind, val = outcome
     if kind not in ("ok", "exc"):
         return
+    if p.get("part") == "evo":
+        return judge_evo(ctx, p, outcome)
     W = ctx.ctx["W"]
     ns = common.rt()
     recs = list(W.wl)
@@ -87,4 +161,10 @@ def judge(ctx, p, outcome):
         pass
 
 
-describe = __import__("harness.C01", fromlist=["describe"]).describe
+_describe01 = __import__("harness.C01", fromlist=["describe"]).describe
+
+
+def describe(ctx, p, outcome):
+    if p.get("part") == "evo":
+        return describe_evo(ctx, p, outcome)
+    return _describe01(ctx, p, outcome)
